@@ -7,6 +7,7 @@ RULE = ('well-formed messages: random subsets of the configured elements (every 
         'lengths drawn from {1, 2, max-1, max, uniform}, numeric extremes, dates at the window edges, PDS + ICC + DE43 together, '
         '12 codecs x {binary, hex} bitmap x {packaged, generated configurations with PAN / PAN-PREFIX / PDS / ICC processors}; '
         'thorough adds every single element at many lengths; non-trivial = distinct message with at least one data element')
+CODEC_ALIASES = True     # one implementation run in three is given an alias spelling of the codec name (worker.for_impl)
 EXHAUSTIVE = {}
 ASSUMPTIONS = ['decimal typed elements (one generated configuration in five): the plain fixed-point sub-domain is modelled (a Decimal is carried by its text, model/Dec.v); exponent forms, NaN / Infinity, underscores and non-ASCII digits are Unmodelled, as are non-canonical date strings (skipped by the comparer)',
                'DE43_* entries are compared with the regex model (pattern translated from the configuration on every run)']
